@@ -331,7 +331,7 @@ func cmdRun(args []string) int {
 				reported = true
 			}
 		}
-		if !reported && si.path != "" {
+		if !reported && si.path != "" && os.Getenv("VERIF_KEEP_REPLAYS") == "" {
 			os.Remove(si.path)
 		}
 	}
